@@ -15,10 +15,10 @@
 EXTENDS Integers, Sequences, FiniteSets, TLC, Json
 CONSTANT TraceFile
 TraceLog == ndJsonDeserialize(TraceFile)
-VARIABLES l, holder, decided, sent, confirmed, awaiting, faults, flushSnap, traces
-vars == <<l, holder, decided, sent, confirmed, awaiting, faults, flushSnap, traces>>
+VARIABLES l, holder, decided, sent, confirmed, awaiting, faults, flushSnap, polledAt, errCb, reported, traces
+vars == <<l, holder, decided, sent, confirmed, awaiting, faults, flushSnap, polledAt, errCb, reported, traces>>
 EmptyF == [x \in {} |-> 0]
-Init == l = 1 /\ holder = EmptyF /\ decided = EmptyF /\ sent = EmptyF /\ confirmed = EmptyF /\ awaiting = EmptyF /\ faults = 0 /\ flushSnap = EmptyF /\ traces = 0
+Init == l = 1 /\ holder = EmptyF /\ decided = EmptyF /\ sent = EmptyF /\ confirmed = EmptyF /\ awaiting = EmptyF /\ faults = 0 /\ flushSnap = EmptyF /\ polledAt = EmptyF /\ errCb = {} /\ reported = {} /\ traces = 0
 Ev == TraceLog[l]
 Get(f, k, d) == IF k \in DOMAIN f THEN f[k] ELSE d
 Put(f, k, v) == [x \in (DOMAIN f) \cup {k} |-> IF x = k THEN v ELSE f[x]]
@@ -42,7 +42,8 @@ Checks(e) ==
               "a record was acknowledged with a different outcome than the application chose">> >>
     [] e.ev = "flush_ret" ->
          << <<(e.err = "<nil>") => (\A k \in DOMAIN awaiting : k[1] = e.m => awaiting[k] = <<>>), "FlushAcks returned before the callback of an earlier acknowledgement had run">>,
-            <<(e.err = "<nil>" /\ faults = 0) => (\A k \in Get(flushSnap, e.m, {}) : Terminal(Get(sent, <<e.m, k>>, 0))), "FlushAcks returned although an acknowledgement made before it was never sent">> >>
+            <<(e.err = "<nil>") => (\A k \in Get(flushSnap, e.m, {}) : Terminal(Get(sent, <<e.m, k>>, 0)) \/ <<e.m, k>> \in reported \/ <<e.m, k[1]>> \in errCb),
+              "FlushAcks returned although an acknowledgement made before it was neither sent nor reported as failed by a callback">> >>
     [] e.ev = "frame_undecodable" -> << <<FALSE, "a share request frame does not decode">> >>
     [] e.ev = "driver_failed" -> << <<FALSE, "driver died">> >>
     [] OTHER -> <<>>
@@ -60,25 +61,34 @@ ApplySent(f, its) == IF its = {} THEN f ELSE LET it == CHOOSE x \in its : TRUE I
 RECURSIVE MarkSent(_, _, _, _)
 MarkSent(f, m, its, clear) == IF its = {} THEN f ELSE LET it == CHOOSE x \in its : TRUE IN
    MarkSent(IF Terminal(it.t) THEN Put(f, <<m, it.k>>, IF clear THEN 0 ELSE it.t) ELSE f, m, its \ {it}, clear)
-RECURSIVE Callback(_, _, _, _, _)   \* returns <<awaiting', confirmed', sent'>>
-Callback(aw, cf, sn, m, rs) == IF rs = <<>> THEN <<aw, cf, sn>> ELSE
+RECURSIVE Callback(_, _, _, _, _, _)   \* returns <<awaiting', confirmed', sent', keys whose acknowledgement came back with an error>>
+Callback(aw, cf, sn, fl, m, rs) == IF rs = <<>> THEN <<aw, cf, sn, fl>> ELSE
    LET r == Head(rs) q == Get(aw, <<m, r.p>>, <<>>) IN
-   IF q = <<>> THEN Callback(aw, cf, sn, m, Tail(rs))
-   ELSE Callback(Put(aw, <<m, r.p>>, Tail(q)), IF r.err = "" THEN ApplySent(cf, Head(q)) ELSE cf, IF r.err = "" THEN sn ELSE MarkSent(sn, m, Head(q), TRUE), m, Tail(rs))
+   IF q = <<>> THEN Callback(aw, cf, sn, fl, m, Tail(rs))
+   ELSE Callback(Put(aw, <<m, r.p>>, Tail(q)), IF r.err = "" THEN ApplySent(cf, Head(q)) ELSE cf, IF r.err = "" THEN sn ELSE MarkSent(sn, m, Head(q), TRUE),
+                 IF r.err = "" THEN fl ELSE fl \cup {<<m, it.k>> : it \in Head(q)}, m, Tail(rs))
 Apply(e) ==
-  CASE e.ev = "reset" -> holder' = EmptyF /\ decided' = EmptyF /\ sent' = EmptyF /\ confirmed' = EmptyF /\ awaiting' = EmptyF /\ faults' = 0 /\ flushSnap' = EmptyF /\ traces' = traces + 1
+  CASE e.ev = "reset" -> holder' = EmptyF /\ decided' = EmptyF /\ sent' = EmptyF /\ confirmed' = EmptyF /\ awaiting' = EmptyF /\ faults' = 0 /\ flushSnap' = EmptyF /\ polledAt' = EmptyF /\ errCb' = {} /\ reported' = {} /\ traces' = traces + 1
     [] e.ev = "polled" -> /\ holder' = PutAll(holder, RecKeys(e.recs), e.m) /\ decided' = PutAll(decided, RecKeys(e.recs), 0) /\ sent' = PutAll(sent, {<<e.m, k>> : k \in RecKeys(e.recs)}, 0)
-                          /\ U(<<confirmed, awaiting, faults, flushSnap, traces>>)
+                          /\ polledAt' = PutAll(polledAt, RecKeys(e.recs), faults)
+                          /\ reported' = {x \in reported : ~(x[1] = e.m /\ x[2] \in RecKeys(e.recs))}
+                          /\ U(<<confirmed, awaiting, faults, flushSnap, traces, errCb>>)
     [] e.ev = "ack_call" -> /\ decided' = (IF Terminal(e.status) THEN PutAll(decided, {k \in RecKeys(e.recs) : Get(holder, k, "") = e.m /\ ~Terminal(Get(decided, k, 0))}, e.status) ELSE decided)
-                            /\ U(<<holder, sent, confirmed, awaiting, faults, flushSnap, traces>>)
+                            /\ U(<<holder, sent, confirmed, awaiting, faults, flushSnap, polledAt, traces, errCb, reported>>)
     [] e.ev = "acks_sent" -> /\ sent' = MarkSent(sent, e.m, Items(e.batches), FALSE) /\ awaiting' = Enqueue(awaiting, e.m, e.batches, Parts(e.batches))
-                             /\ U(<<holder, decided, confirmed, faults, flushSnap, traces>>)
-    [] e.ev = "ack_callback" -> /\ LET res == Callback(awaiting, confirmed, sent, e.m, e.results) IN awaiting' = res[1] /\ confirmed' = res[2] /\ sent' = res[3]
-                                /\ U(<<holder, decided, faults, flushSnap, traces>>)
-    [] e.ev = "flush_call" -> /\ flushSnap' = Put(flushSnap, e.m, {k \in DOMAIN decided : Terminal(decided[k]) /\ Get(holder, k, "") = e.m})
-                              /\ U(<<holder, decided, sent, confirmed, awaiting, faults, traces>>)
-    [] e.ev \in {"moved", "session_reset", "close_call"} -> faults' = faults + 1 /\ U(<<holder, decided, sent, confirmed, awaiting, flushSnap, traces>>)
-    [] OTHER -> U(<<holder, decided, sent, confirmed, awaiting, faults, flushSnap, traces>>)
+                             /\ U(<<holder, decided, confirmed, faults, flushSnap, polledAt, traces, errCb, reported>>)
+    [] e.ev = "ack_callback" -> /\ LET res == Callback(awaiting, confirmed, sent, {}, e.m, e.results)
+                                       errParts == {e.results[i].p : i \in {j \in DOMAIN e.results : e.results[j].err # ""}}
+                                   IN /\ awaiting' = res[1] /\ confirmed' = res[2] /\ sent' = res[3]
+                                      \* an error for a partition also covers decisions that were dropped before being sent (stale after a move / reset)
+                                      /\ reported' = reported \cup res[4] \cup {<<e.m, k>> : k \in {x \in DOMAIN decided : x[1] \in errParts /\ Get(holder, x, "") = e.m /\ Terminal(decided[x]) /\ ~Terminal(Get(sent, <<e.m, x>>, 0))}}
+                                /\ errCb' = errCb \cup {<<e.m, e.results[i].p>> : i \in {j \in DOMAIN e.results : e.results[j].err # ""}}
+                                /\ U(<<holder, decided, faults, flushSnap, polledAt, traces>>)
+    [] e.ev = "flush_call" -> /\ flushSnap' = Put(flushSnap, e.m, {k \in DOMAIN decided : Terminal(decided[k]) /\ Get(holder, k, "") = e.m /\ Get(polledAt, k, -1) = faults /\ ~Terminal(Get(sent, <<e.m, k>>, 0)) /\ <<e.m, k>> \notin reported})
+                              /\ errCb' = {x \in errCb : x[1] # e.m}
+                              /\ U(<<holder, decided, sent, confirmed, awaiting, faults, traces, polledAt, reported>>)
+    [] e.ev \in {"moved", "session_reset", "close_call"} -> faults' = faults + 1 /\ U(<<holder, decided, sent, confirmed, awaiting, flushSnap, polledAt, traces, errCb, reported>>)
+    [] OTHER -> U(<<holder, decided, sent, confirmed, awaiting, faults, flushSnap, polledAt, traces, errCb, reported>>)
 Next == l <= Len(TraceLog) /\ Ok(Ev) /\ Apply(Ev) /\ l' = l + 1
 Spec == Init /\ [][Next]_vars
 Accepted == (l = Len(TraceLog) + 1) => PrintT(<<"ACCEPTED", Len(TraceLog), traces>>)
